@@ -449,6 +449,8 @@ func c16(c *Ctx) {
 								r.Except("C16.V4", fi.Name(), "address of IRCServer.Config", c.P.Pos(x.Pos()), "passed to the TOML encoder for reading, under ConfigMu.RLock")
 							} else if c.readOnlyAlias(fi, x) {
 								r.Ok("C16.V4", fi.Name(), "address of IRCServer.Config kept in a local that is only read", c.P.Pos(x.Pos()), "every use of the local selects a field in read position")
+							} else if cal := c.readOnlyCallee(fi, x); cal != "" {
+								r.Ok("C16.V4", fi.Name(), "address of IRCServer.Config handed to a function that only reads it", c.P.Pos(x.Pos()), cal+" and what it calls write no field of a configuration type and keep no pointer")
 							} else {
 								r.Fail("C16.V4", fi.Name(), "address of IRCServer.Config", c.P.Pos(x.Pos()), "a pointer into the configuration escapes: writes through it bypass the replicated update path")
 							}
@@ -864,4 +866,96 @@ func inDetachedLiteral(body ast.Node, x ast.Node) bool {
 		return true
 	})
 	return detached
+}
+
+// readOnlyCallee: &<config> is an argument of a call of a module function which — with everything it calls, two levels deep —
+// writes no field of a type of package config, returns nothing that could hold the pointer, and stores it nowhere (it has no
+// assignment whose right-hand side is the parameter). It returns the callee's name, or "".
+func (c *Ctx) readOnlyCallee(fi *load.FuncInfo, addr *ast.UnaryExpr) string {
+	info := fi.Info()
+	var call *ast.CallExpr
+	argIdx := -1
+	ast.Inspect(fi.Body(), func(n ast.Node) bool {
+		if ce, ok := n.(*ast.CallExpr); ok {
+			for i, a := range ce.Args {
+				if ast.Unparen(a) == ast.Expr(addr) {
+					call, argIdx = ce, i
+				}
+			}
+		}
+		return true
+	})
+	if call == nil {
+		return ""
+	}
+	cal := c.P.FuncOf(astx.Callee(info, call))
+	if cal == nil || cal.Body() == nil || cal.Obj == nil {
+		return ""
+	}
+	sig := cal.Obj.Type().(*types.Signature)
+	if argIdx >= sig.Params().Len() {
+		return ""
+	}
+	param := sig.Params().At(argIdx)
+	// no result of pointer-to-config type
+	for i := 0; i < sig.Results().Len(); i++ {
+		if n := astx.NamedOf(sig.Results().At(i).Type()); n != nil && n.Obj().Pkg() != nil && n.Obj().Pkg().Path() == pathConfig {
+			if _, isPtr := sig.Results().At(i).Type().(*types.Pointer); isPtr {
+				return ""
+			}
+		}
+	}
+	writesConfig := func(f *load.FuncInfo) bool {
+		for fv := range c.funcFlow(f).writes {
+			if fv.Pkg() != nil && fv.Pkg().Path() == pathConfig {
+				return true
+			}
+		}
+		return false
+	}
+	seen := map[*load.FuncInfo]bool{}
+	var visit func(f *load.FuncInfo, d int) bool
+	visit = func(f *load.FuncInfo, d int) bool {
+		if f == nil || seen[f] || d > 2 {
+			return true
+		}
+		seen[f] = true
+		if writesConfig(f) {
+			return false
+		}
+		for _, k := range c.callees(f) {
+			if !visit(k, d+1) {
+				return false
+			}
+		}
+		return true
+	}
+	if !visit(cal, 0) {
+		return ""
+	}
+	// the parameter itself is not stored or passed on as a value (only selected from)
+	ci := cal.Info()
+	ok := true
+	ast.Inspect(cal.Body(), func(n ast.Node) bool {
+		id, isID := n.(*ast.Ident)
+		if !isID || ci.Uses[id] != types.Object(param) {
+			return true
+		}
+		// find the parent: acceptable only as the operand of a selector
+		sel := false
+		ast.Inspect(cal.Body(), func(m ast.Node) bool {
+			if se, isSel := m.(*ast.SelectorExpr); isSel && ast.Unparen(se.X) == ast.Expr(id) {
+				sel = true
+			}
+			return true
+		})
+		if !sel {
+			ok = false
+		}
+		return true
+	})
+	if !ok {
+		return ""
+	}
+	return shortName(cal)
 }
